@@ -3,9 +3,12 @@ package interp
 import (
 	"fmt"
 	"io/fs"
+	"os"
+	"path/filepath"
 	"sort"
 	"strings"
 	"syscall"
+	"time"
 
 	"gosymx/sym"
 )
@@ -36,6 +39,25 @@ type fsHandle struct {
 	off    int
 	app    bool
 }
+
+// fsInfo is the fs.FileInfo of a file or directory of the model.
+type fsInfo struct {
+	name string
+	size int64
+	dir  bool
+}
+
+func (i fsInfo) Name() string { return filepath.Base(i.name) }
+func (i fsInfo) Size() int64  { return i.size }
+func (i fsInfo) Mode() os.FileMode {
+	if i.dir {
+		return os.ModeDir | 0o755
+	}
+	return 0o644
+}
+func (i fsInfo) ModTime() time.Time { return time.Time{} }
+func (i fsInfo) IsDir() bool        { return i.dir }
+func (i fsInfo) Sys() interface{}   { return nil }
 
 type fsCrash struct{}
 
@@ -93,6 +115,20 @@ func init() {
 	reg("net/http.Error", func(fr *frame, a []Value) Value { fr.in.note("stub: http.Error reply not rendered"); return nil })
 	reg("os.UserConfigDir", func(fr *frame, a []Value) Value { return Tuple{"/cfg", Iface{}} })
 	reg("os.TempDir", func(fr *frame, a []Value) Value { return "/tmp" })
+	stat := func(fr *frame, a []Value) Value {
+		in := fr.in
+		name := in.concreteString(a[0], "file name")
+		in.fsStep(fr, "stat "+name)
+		if f := in.fs.files[name]; f != nil {
+			return Tuple{Iface{T: in.nativeObjT, V: &Native{V: reflectValueOf(fsInfo{name: name, size: int64(len(f.data))})}}, Iface{}}
+		}
+		if in.fs.dirs[name] {
+			return Tuple{Iface{T: in.nativeObjT, V: &Native{V: reflectValueOf(fsInfo{name: name, dir: true})}}, Iface{}}
+		}
+		return Tuple{Iface{}, in.nativeErr(pathErr("stat", name, syscall.ENOENT))}
+	}
+	reg("os.Stat", stat)
+	reg("os.Lstat", stat)
 	reg("os.ReadFile", func(fr *frame, a []Value) Value {
 		in := fr.in
 		name := in.concreteString(a[0], "file name")
